@@ -255,13 +255,15 @@ func checkDriver(c *Check, cases []driverCase) {
 }
 
 func checkC20(c *Check) {
-	c.rule = "MC_Api: three scripts (using / only calling a host function; returning a variable) x 14 variable values of every type x 8 host-function kinds (fresh value of four types, void, returns its first argument, the engine's own true / null) x optimise on/off x counter variable set or not x all single post-Prepare actions, (quick: a fifth of) all pairs and a sample of triples over 14 actions (Run / Execute on three objects incl. nil, GetVariable of four names, SetVariable of three names incl. null, a name shadowing a field, and null under a name shadowing a field); every action's observation (Execute value, Run verdict = truth of it and failing iff it fails, host calls with arguments in order, GetVariable, all variables) is compared with EFApi/EFSemantics; the built cmd/evalfilter binary is run on scripts x JSON documents x {-no-optimizer, -timeout} and must print what Execute gives in-process on the decoded document and exit 0; lex / parse / bytecode must terminate normally on every script incl. malformed ones; distinct = distinct action sequence or driver invocation"
+	c.rule = "MC_Api: three scripts (using / only calling a host function; returning a variable) x 14 variable values of every type x 9 host-function kinds (fresh value of four types, void, returns its first argument, returns an array made of the argument slice it was given, the engine's own true / null) x optimise on/off x counter variable set or not x all single post-Prepare actions, (quick: a fifth of) all pairs and a sample of triples over 14 actions (Run / Execute on three objects incl. nil, GetVariable of four names, SetVariable of three names incl. null, a name shadowing a field, and null under a name shadowing a field); every action's observation (Execute value, Run verdict = truth of it and failing iff it fails, host calls with arguments in order, GetVariable, all variables) is compared with EFApi/EFSemantics; the built cmd/evalfilter binary is run on scripts x JSON documents x {-no-optimizer, -timeout} and must print what Execute gives in-process on the decoded document and exit 0; lex / parse / bytecode must terminate normally on every script incl. malformed ones; distinct = distinct action sequence or driver invocation"
 	c.assumptions = []string{"API misuse (Run before Prepare, Dump after a failed Prepare) is not generated", "the driver's JSON result line and debug output are not compared"}
 	runRows(c, "MC_Api", stdCfg(c.Tier, "RunIsTruthOfExecute"), func(row *Row) {
 		replayApiRow(c, row)
 	})
-	// driver corpus: scripts over JSON documents, incl. run-time faults, unknown kinds, malformed scripts and documents
-	docs := []string{`{"Name":"x","N":3,"Ok":true,"Tags":["a","b"],"Inner":{"k":1.5},"Nil":null}`, `{}`, ``, `{"N":-2.5,"Name":""}`, `{"N":[1,[2,3],{"a":null}],"Name":{"deep":{"deeper":[true]}}}`, `[1,2]`, `{"N":`}
+	// driver corpus: scripts over JSON documents, incl. run-time faults, unknown kinds, malformed scripts and documents, files holding more than one document or trailing text
+	docs := []string{`{"Name":"x","N":3,"Ok":true,"Tags":["a","b"],"Inner":{"k":1.5},"Nil":null}`, `{}`, ``, `{"N":-2.5,"Name":""}`, `{"N":[1,[2,3],{"a":null}],"Name":{"deep":{"deeper":[true]}}}`, `[1,2]`, `{"N":`,
+		// files which are not ONE document: two documents, JSON lines, stray closers and trailing text
+		`{"N":1,"Name":"one"}{"N":2,"Name":"two"}`, "{\"N\":1,\"Name\":\"one\"}\n{\"N\":2,\"Name\":\"two\"}\n", `{"N":1,"Name":"one"} }`, `{"N":1,"Name":"one"},`, `{"N":1,"Name":"one"} trailing`, "{\"N\":1}\n\n  \n"}
 	scripts := []string{
 		`return Name;`, `return N;`, `return N + 1;`, `return Ok;`, `return Tags;`, `return Inner;`, `return Nil;`, `return Missing;`,
 		`return len(Tags) == 2 && Ok;`, `if ( N > 2 ) { return "big"; } return "small";`, `return 1 / 0;`, `return N["x"];`, `panic("boom");`,
